@@ -24,8 +24,8 @@ func extras() []core.Extra {
 	}
 }
 
-// boundaryGrid compares strz.ParseUint with strconv.ParseUint (string and []byte
-// instantiation) for every base -1..37 × bit size -1..65 × the overflow boundary values.
+// boundaryGrid compares strz.ParseUint with strconv.ParseUint (value and error class; string
+// and []byte instantiation) for every base -1..37 × bit size -1..65 × the overflow boundary values.
 func boundaryGrid(ctx *core.Ctx) (int, string, []core.ExtraFailure) {
 	evals := 0
 	var fails []core.ExtraFailure
@@ -54,7 +54,8 @@ func boundaryGrid(ctx *core.Ctx) (int, string, []core.ExtraFailure) {
 				wv, werr := strconv.ParseUint(s, base, bits)
 				v1, e1 := strz.ParseUint(s, base, bits)
 				v2, e2 := strz.ParseUint([]byte(s), base, bits)
-				if v1 != wv || v2 != wv || (e1 != nil) != (werr != nil) || (e2 != nil) != (werr != nil) {
+				wc := stdClass(werr, base, bits)
+				if v1 != wv || v2 != wv || puClass(e1, base, bits) != wc || puClass(e2, base, bits) != wc {
 					if len(fails) == 0 {
 						fails = append(fails, core.ExtraFailure{
 							Failure: core.Failure{Key: "parseuint-value", Desc: fmt.Sprintf("ParseUint(%q, %d, %d): string=(%d,%v) []byte=(%d,%v), strconv.ParseUint=(%d,%v)", s, base, bits, v1, e1, v2, e2, wv, werr)},
@@ -210,7 +211,8 @@ func puSmallScope(ctx *core.Ctx) (int, string, []core.ExtraFailure) {
 					wv, werr := strconv.ParseUint(s, base, bits)
 					v1, e1 := strz.ParseUint(s, base, bits)
 					v2, e2 := strz.ParseUint(b, base, bits)
-					if fail == nil && (v1 != wv || v2 != wv || (e1 != nil) != (werr != nil) || (e2 != nil) != (werr != nil)) {
+					wc := stdClass(werr, base, bits)
+					if fail == nil && (v1 != wv || v2 != wv || puClass(e1, base, bits) != wc || puClass(e2, base, bits) != wc) {
 						fail = &core.ExtraFailure{
 							Failure: core.Failure{Key: "parseuint-value", Desc: fmt.Sprintf("ParseUint(%q, %d, %d): string=(%d,%v) []byte=(%d,%v), strconv.ParseUint=(%d,%v)", s, base, bits, v1, e1, v2, e2, wv, werr)},
 							Payload: map[string]any{"lines": []string{"@ C15 mix", puLine(s, base, bits)}},
